@@ -340,74 +340,174 @@ def eval_reindex(ctx, jobs, res):
                           what='reindex / recalc_node_pos disagree with the model')
 
 
+DTYPES = ['float64', 'int64', 'float64', 'int32', 'bool', 'float32', 'float64']
+
+
+def gen_transfers(rng, knns, tid0=0, short=False, dtype_shift=0):
+    transfers = []
+    tid = tid0
+    for where in ('nodal', 'elemental'):
+        for direction in ('compress', 'decompress'):
+            for shape, ncomp in ((('N1', 1),) if short else (('N1', 1), ('N', 1), ('N3', 3))):
+                for kind_t, xmode in (('mean', 'const'), ('mean', 'random'), ('sum', 'random')):
+                    if short and xmode == 'random' and kind_t == 'mean':
+                        continue
+                    if xmode == 'const':
+                        cst = rng.randint(-40, 40)
+                        x = [cst] * (3 * 400)
+                    else:
+                        x = [rng.randint(-50, 50) for _ in range(3 * 400)]
+                    dtype = 'float64' if short else DTYPES[(tid + dtype_shift) % len(DTYPES)]
+                    transfers.append({'tid': tid, 'where': where, 'dir': direction,
+                                      'shape': shape, 'ncomp': ncomp, 'kind': kind_t, 'dtype': dtype,
+                                      'xmode': xmode, 'knn': rng.choice(knns), 'x': x,
+                                      'repeat': 2 if tid % 9 == 4 else 1})
+                    tid += 1
+    return transfers
+
+
+def n_cells_nodes(kind, nn):
+    h = nn[0] * nn[1] * nn[2]
+    nodes = (nn[0] + 1) * (nn[1] + 1) * (nn[2] + 1)
+    if kind == 'hex':
+        return h, nodes
+    if kind in ('tet', 'tetplate'):
+        return 6 * h, nodes
+    if kind == 'prism':
+        return 2 * h, nodes
+    if kind == 'pyr':
+        return 6 * h, nodes + h
+    if kind == 'hexpyr':
+        return (h + 1) // 2 + 6 * (h // 2), nodes + h // 2
+    raise AssertionError(kind)
+
+
 def gen_run_jobs(ctx, n):
     rng = ctx.rng
     jobs = []
+    thorough = ctx.tier == 'thorough'
     # the first runs are fixed in regime so that the quick tier covers every
     # regime; the rest are random
     plan = [
         dict(kind='pyr', cos_thresh=0.99, dist_thresh=0.0),
-        dict(kind='prism', cos_thresh=0.99, dist_thresh=0.0, mat='shear', n=[2, 3, 2], elem_num=3),
+        # thin plate meshed with tets (aspect 0.01): knife edges between nearly opposite
+        # normals inside the merged cells; coplanar-only regime, volume must be kept
+        dict(kind='tetplate', cos_thresh=0.99, dist_thresh=0.0, mat='identity', n=[4, 3, 2], elem_num=6,
+             scale=1.0, stretch=[100, 100, 1], drop=0),
         # creased (non-flat, planar-faced) bricks with cos_thresh strictly above every
         # non-coplanar dihedral cosine (crease cosines 0.995 and 0.99875): volume must be kept
         dict(kind='tet', cos_thresh=0.9999, dist_thresh=0.0, mat='identity', n=[4, 2, 2], elem_num=2,
-             scale=1.0, crease={'i0': 1, 'D': 20, 's': 1, 'Dx': 40, 'Dy': 40}),
+             scale=1.0, crease={'i0': 1, 'D': 20, 's': 1, 'Dx': 40, 'Dy': 40}, drop=0),
+        # vertices merged, then a second compress() on the same object without merging
         dict(kind='hex', cos_thresh=0.999, dist_thresh=1.1, mat='identity', n=[3, 2, 4], elem_num=2,
-             scale=1.0),
-        dict(kind='tet', cos_thresh=0.0, dist_thresh=0.0, mat='identity', elem_num=8),
+             scale=1.0, second=dict(cos_thresh=0.999, dist_thresh=0.0), drop=0),
+        dict(kind='tet', cos_thresh=0.0, dist_thresh=0.0, mat='identity', elem_num=8, drop=0),
         dict(kind='hex', cos_thresh=0.9999, dist_thresh=0.0, mat='shear', n=[4, 2, 2], elem_num=2,
-             crease={'i0': 1, 'D': 20, 's': 1, 'Dx': 40, 'Dy': 40}),
+             crease={'i0': 1, 'D': 20, 's': 1, 'Dx': 40, 'Dy': 40}, drop=0),
+        dict(kind='hexpyr', cos_thresh=0.99, dist_thresh=0.0, n=[3, 2, 2], elem_num=3, drop=3,
+             interleave=True),
+        dict(kind='prism', cos_thresh=0.99, dist_thresh=0.0, mat='shear', n=[2, 3, 2], elem_num=3,
+             scale=2.0 ** -13, far=True),
     ]
+    if thorough:
+        plan += [
+            # more than 8192 faces
+            dict(kind='hex', cos_thresh=0.99, dist_thresh=0.0, mat='identity', n=[14, 10, 10], elem_num=60,
+                 scale=1.0, drop=0, no_transfers=True),
+            # integer-valued options
+            dict(kind='hex', cos_thresh=1, dist_thresh=0, mat='identity', n=[3, 2, 2], elem_num=2, scale=1.0,
+                 drop=0),
+            dict(kind='tet', cos_thresh=0.99, dist_thresh=0.0, mat='identity', n=[2, 2, 2], elem_num=2,
+                 scale=1.0, coord_dtype='int64', drop=0),
+            dict(kind='hex', cos_thresh=0.99, dist_thresh=0.0, mat='rot3', n=[3, 2, 2], elem_num=2,
+                 scale=1.0, coord_dtype='float32', drop=0),
+            dict(kind='hex', cos_thresh=0.99, dist_thresh=0.0, mat='identity', n=[1, 1, 1], elem_num=1,
+                 scale=1.0, drop=0),
+            dict(kind='tetplate', cos_thresh=0.99, dist_thresh=0.0, mat='rot3', n=[5, 4, 2], elem_num=8,
+                 scale=0.5, stretch=[100, 100, 10], drop=0),
+            dict(kind='tetplate', cos_thresh=0.999, dist_thresh=0.0, mat='identity', n=[3, 3, 3], elem_num=4,
+                 scale=1.0, stretch=[100, 80, 3], drop=4),
+            dict(kind='prism', cos_thresh=0.99, dist_thresh=0.0, mat='identity', n=[3, 3, 2], elem_num=3,
+                 scale=1.0, stretch=[100, 100, 2], drop=0),
+        ]
     for i in range(n):
         p = dict(plan[i]) if i < len(plan) else {}
-        kind = p.get('kind', rng.choice(['hex', 'tet', 'hex', 'tet', 'prism', 'pyr']))
-        hi = 3 if kind in ('tet', 'pyr') else 4
+        kind = p.get('kind', rng.choice(['hex', 'tet', 'hex', 'tet', 'prism', 'pyr', 'hexpyr', 'tetplate']))
+        hi = 3 if kind in ('tet', 'pyr', 'tetplate', 'hexpyr') else 4
         nn = [rng.randint(1, hi) for _ in range(3)]
         nn = p.get('n', nn)
-        if nn == [1, 1, 1]:
+        if nn == [1, 1, 1] and kind != 'hex' and 'n' not in p:
             nn[rng.randrange(3)] = 2
         mat = p.get('mat', rng.choice(['identity', 'identity', 'shear', 'rot3', 'refl3']))
-        scale = p.get('scale', rng.choice([1.0, 1.0, 0.5, 0.25]))
-        n_nodes = (nn[0] + 1) * (nn[1] + 1) * (nn[2] + 1) + (nn[0] * nn[1] * nn[2] if kind == 'pyr' else 0)
-        idmode = rng.choice(['plain', 'sparse', 'shuffled'])
+        stretch = p.get('stretch')
+        if kind == 'tetplate' and stretch is None:
+            stretch = [100, rng.choice([100, 60]), rng.choice([1, 2, 5, 10, 14])]
+            if mat in ('shear', 'refl3'):
+                mat = 'rot3'
+        scale = p.get('scale', rng.choice([1.0, 1.0, 0.5, 0.25, 2.0 ** -13, 2.0 ** 10]))
+        n_cells, n_nodes = n_cells_nodes(kind, nn)
+        idmode = rng.choice(['plain', 'sparse', 'shuffled', 'reversed', 'swap2', 'offset'])
         node_ids = node_perm = None
-        if idmode != 'plain':
+        if idmode in ('sparse', 'shuffled'):
             node_ids = sorted(rng.sample(range(1, 5000), n_nodes))
             if idmode == 'shuffled':
                 rng.shuffle(node_ids)
             node_perm = list(range(n_nodes))
             rng.shuffle(node_perm)
+        elif idmode == 'reversed':
+            node_perm = list(range(n_nodes))[::-1]
+        elif idmode == 'swap2' and n_nodes > 3:
+            node_perm = list(range(n_nodes))
+            k = rng.randrange(n_nodes - 1)
+            node_perm[k], node_perm[k + 1] = node_perm[k + 1], node_perm[k]
+        elif idmode == 'offset':
+            a = rng.randint(1000, 2000)
+            node_ids = list(range(a, a + n_nodes))
+            mid = list(range(1, n_nodes - 1))
+            rng.shuffle(mid)
+            node_perm = [0] + mid + ([n_nodes - 1] if n_nodes > 1 else [])
+        eidmode = rng.choice(['plain', 'plain', 'sparse', 'shuffled'])
+        elem_ids = None
+        if eidmode != 'plain':
+            elem_ids = sorted(rng.sample(range(1, 20000), n_cells))
+            if eidmode == 'shuffled':
+                rng.shuffle(elem_ids)
         cos_t = p.get('cos_thresh', rng.choice([0.999, 0.99, 0.95, 0.9, 0.7, 0.5, 0.2]))
+        if kind == 'tetplate' and 'cos_thresh' not in p:
+            cos_t = rng.choice([0.99, 0.999, 0.9999, 0.95])
         crease = p.get('crease')
-        if i >= len(plan) and rng.random() < 0.35 and nn[0] >= 2:
+        if i >= len(plan) and rng.random() < 0.3 and nn[0] >= 2 and kind != 'tetplate':
             crease = {'i0': rng.randint(1, nn[0] - 1), 'D': 20, 's': rng.choice([1, 1, 2]),
                       'Dx': rng.choice([20, 40, 80]), 'Dy': rng.choice([20, 40])}
             cos_t = rng.choice([0.9999, 0.99999, 1.0, 0.999, 0.99])
         # relative to the shortest edge of the (transformed) lattice
         dist_t = p.get('dist_thresh', rng.choice([0.0, 0.0, 0.0, 1.1, 2.5])) * scale * \
-            {'identity': 1.0, 'shear': 2.3, 'rot3': 3.0, 'refl3': 3.0}[mat] * (20.0 if crease else 1.0)
+            {'identity': 1.0, 'shear': 2.3, 'rot3': 3.0, 'refl3': 3.0}[mat] * (20.0 if crease else 1.0) * \
+            (min(stretch) if stretch else 1.0)
+        if isinstance(p.get('dist_thresh'), int):
+            dist_t = p['dist_thresh']
         elem_num = p.get('elem_num', rng.choice([1, 2, 3, 5, 8, 1000]))
+        ndrop = p.get('drop', rng.choice([0, 0, max(1, n_cells // 5)]))
+        drop = sorted(rng.sample(range(n_cells), min(ndrop, n_cells - 1))) if ndrop else []
+        far = p.get('far', rng.random() < 0.2)
+        t = [rng.randint(-5, 5) for _ in range(3)]
+        if far and p.get('coord_dtype', 'float64') == 'float64':
+            t = [rng.choice([-1, 1]) * rng.randint(10 ** 5, 10 ** 6) for _ in range(3)]
         knns = [1, 2, 3, 4]
-        transfers = []
-        tid = 0
-        for where in ('nodal', 'elemental'):
-            for direction in ('compress', 'decompress'):
-                for shape, ncomp in (('N1', 1), ('N', 1), ('N3', 3)):
-                    for kind_t, xmode in (('mean', 'const'), ('mean', 'random'), ('sum', 'random')):
-                        if xmode == 'const':
-                            cst = rng.randint(-40, 40)
-                            x = [cst] * (3 * 400)
-                        else:
-                            x = [rng.randint(-50, 50) for _ in range(3 * 400)]
-                        transfers.append({'tid': tid, 'where': where, 'dir': direction,
-                                          'shape': shape, 'ncomp': ncomp, 'kind': kind_t,
-                                          'xmode': xmode, 'knn': rng.choice(knns), 'x': x})
-                        tid += 1
-        jobs.append({'id': i, 'kind': kind, 'n': nn, 'mat': mat, 'M': MATS[mat],
-                     't': [rng.randint(-5, 5) for _ in range(3)], 'scale': scale,
-                     'idmode': idmode, 'node_ids': node_ids, 'node_perm': node_perm, 'crease': crease,
+        transfers = [] if p.get('no_transfers') else gen_transfers(rng, knns, dtype_shift=i)
+        second = p.get('second')
+        if second is None and i >= len(plan) and rng.random() < 0.3:
+            second = dict(cos_thresh=rng.choice([0.999, 0.99, 0.9999]),
+                          dist_thresh=0.0 if dist_t > 0 else 1.1 * scale * (min(stretch) if stretch else 1.0))
+        if second is not None:
+            second = dict(second, elem_num=elem_num, knns=[1, 2],
+                          transfers=gen_transfers(rng, [1, 2], tid0=1000, short=True))
+        jobs.append({'id': i, 'kind': kind, 'n': nn, 'mat': mat, 'M': MATS[mat], 't': t, 'scale': scale,
+                     'stretch': stretch, 'far': far, 'drop': drop, 'coord_dtype': p.get('coord_dtype', 'float64'),
+                     'idmode': idmode, 'eidmode': eidmode, 'node_ids': node_ids, 'node_perm': node_perm,
+                     'elem_ids': elem_ids, 'crease': crease, 'interleave': bool(p.get('interleave')),
                      'elem_num': elem_num, 'cos_thresh': cos_t, 'dist_thresh': dist_t,
-                     'knns': knns, 'transfers': transfers})
+                     'knns': knns, 'transfers': transfers, 'second': second})
     return jobs
 
 
@@ -442,29 +542,40 @@ def normal_of(face, pos):
     return n
 
 
-def max_noncoplanar_cos2(polys, pos_nd):
-    """largest cos^2 between normals of two input faces that share an edge and
-    are not parallel (exact rationals).  Above it only coplanar faces can be
-    merged by remove_edges."""
+def max_noncoplanar_cos2(cells, pos_nd):
+    """The decision rule of remove_edges, evaluated exactly (rationals) on the merged
+    cells: the edge {a,b} is removed only if IN EVERY cell that contains it the
+    cosine between the normal of a face listing (a,b) and that of a face listing
+    (b,a) is >= cos_thresh.  Returns the largest value, over the edges that are not
+    coplanar in every cell, of  min over cells of (max over such face pairs of
+    sign(cos) * cos^2).  If cos_thresh^2 exceeds it, only faces that are coplanar in
+    every cell can be fused, so the volume must be conserved.  Knife edges (nearly
+    opposite normals) have a negative value."""
     pos = [[fr(c) for c in row] for row in pos_nd]
-    by_edge = {}
-    for p in polys:
+    per_edge = {}
+    for p in cells:
+        by_edge = {}
         for f in p:
-            n = normal_of(f, pos)
-            for (a, b) in edges_of(f):
-                by_edge.setdefault((min(a, b), max(a, b)), []).append(n)
-    best = Fr(0)
-    for ns in by_edge.values():
-        for i in range(len(ns)):
-            for j in range(i + 1, len(ns)):
-                u, v = ns[i], ns[j]
-                cr = [u[1] * v[2] - u[2] * v[1], u[2] * v[0] - u[0] * v[2], u[0] * v[1] - u[1] * v[0]]
-                if cr == [0, 0, 0]:
-                    continue
-                d = sum(x * y for x, y in zip(u, v))
-                c2 = d * d / (sum(x * x for x in u) * sum(x * x for x in v))
-                best = max(best, c2)
-    return best
+            nrm = normal_of(f, pos)
+            for e in edges_of(f):
+                by_edge.setdefault(e, []).append(nrm)
+        for (a, b), ns in by_edge.items():
+            if (a, b) > (b, a):
+                continue
+            best = None
+            for u in ns:
+                for v in by_edge.get((b, a), []):
+                    d = sum(x * y for x, y in zip(u, v))
+                    val = d * abs(d) / (sum(x * x for x in u) * sum(x * x for x in v))
+                    best = val if best is None else max(best, val)
+            if best is not None:
+                key = (a, b)
+                per_edge[key] = best if key not in per_edge else min(per_edge[key], best)
+    level = Fr(-1)
+    for val in per_edge.values():
+        if val < 1:
+            level = max(level, val)
+    return level
 
 
 # ------------------------------------------------------------ evaluation
@@ -554,6 +665,15 @@ def run_defs(job, r):
         checks.append(('cells_balanced', f'forallb wf_poly_b {nm}_out'))
         checks.append(('uses_exactly_listed_nodes', f'uses_exactly_b {K} {nm}_out'))
         checks.append(('connectivity_lists_face_nodes', f'all2 conn_ok_b {nm}_conn {nm}_out'))
+        L.append(f'Definition {nm}_nconv : list Z := {lib.coq_list([cz(v) for v in r["node_conv"]])}.')
+        # K = node_conv.max() + 1 (C20_reindex_exact), cells = elem_conv.max() + 1, ids 1..K / 1..P
+        checks.append(('node_table_matches_node_conv',
+                       f'({K} =? fold_right Z.max (-1) {nm}_nconv + 1) && '
+                       f'({P} =? fold_right Z.max (-1) {nm}_econv + 1)'))
+        checks.append(('ids_are_1_to_n', 'true' if (r['out_node_ids'] == list(range(1, K + 1)) and
+                                                     r['out_elem_ids'] == list(range(1, P + 1)) and
+                                                     r.get('out_wellformed') and
+                                                     r.get('recomputed_same_object')) else 'false'))
         checks.append(('volume_total', f'Qeq_bool (volQ {nm}_outpos {nm}_out) (volQ {nm}_inpos {nm}_in)'))
         checks.append(('volume_per_cell',
                        f'all2 (fun m c => Qeq_bool (volQ {nm}_outpos [c]) '
@@ -562,12 +682,50 @@ def run_defs(job, r):
     return nm, L, checks
 
 
+def with_second(rjobs, rres):
+    """a second compress() on the same object that was not refused is judged as a
+    run of its own (same input, the parameters of the second call)"""
+    J, R = list(rjobs), list(rres)
+    for job, r in zip(rjobs, rres):
+        s2 = r.get('second')
+        if not s2 or s2.get('refused') or 'error' in r:
+            continue
+        sec = job['second']
+        job2 = dict(job, id=job['id'] + 1000, cos_thresh=sec['cos_thresh'], dist_thresh=sec['dist_thresh'],
+                    transfers=sec['transfers'], knns=sec['knns'], second=None, _orig=job, history='second')
+        r2 = {k: r[k] for k in ('in_polys', 'in_pos', 'merge_polys', 'merge_elem_conv', 'merge_K')}
+        r2.update(s2)
+        r2['secs'] = 0
+        J.append(job2)
+        R.append(r2)
+    return J, R
+
+
 def eval_runs(ctx, rjobs, rres):
     lines = [HEADER]
     per_run = []
     for job, r in zip(rjobs, rres):
-        descr = {k: job.get(k) for k in ('kind', 'n', 'mat', 't', 'scale', 'idmode', 'elem_num',
-                                         'cos_thresh', 'dist_thresh', 'crease')}
+        if r.get('second') is not None:
+            s2 = r['second']
+            ctx.count('second_compress:' + ('refused' if s2.get('refused') else
+                                            'raised' if 'error' in s2 else 'ran'))
+            if 'error' in s2:
+                ctx.violation('impl-violation', {'jobs': {'runs': [strip_x(job)]}},
+                              'a second compress() is refused or gives a valid mesh', s2['error'],
+                              'verified-oracle test, history: compress twice on one object',
+                              signature={'check': 'history', 'symptom': 'second compress raises'},
+                              what='second compress() raised something other than the refusal')
+    rjobs, rres = with_second(rjobs, rres)
+    for job, r in zip(rjobs, rres):
+        descr = {k: job.get(k) for k in ('kind', 'n', 'mat', 't', 'scale', 'idmode', 'eidmode', 'elem_num',
+                                         'cos_thresh', 'dist_thresh', 'crease', 'stretch', 'drop',
+                                         'coord_dtype', 'history')}
+        ctx.count('run_history:' + (job.get('history') or 'first'))
+        ctx.count('run_eidmode:' + job.get('eidmode', 'plain'))
+        ctx.count('run_coord_dtype:' + job.get('coord_dtype', 'float64'))
+        ctx.count('run_dropped_cells:' + ('yes' if job.get('drop') else 'no'))
+        ctx.count('run_far_offset:' + ('yes' if job.get('far') else 'no'))
+        ctx.count('run_scale:%g' % job['scale'])
         ctx.count('run_creased:' + ('yes' if job.get('crease') else 'no'))
         ctx.count('run_kind:' + job['kind'])
         ctx.count('run_mat:' + job['mat'])
@@ -605,7 +763,7 @@ def eval_runs(ctx, rjobs, rres):
             nc = [v for v in r['node_conv'] if v >= 0]
             merged_vertices = len(nc) != len(set(nc))
             vanished = sum(1 for v in r['elem_conv'] if v < 0)
-            c2 = max_noncoplanar_cos2(r['in_polys'], r['in_pos'])
+            c2 = max_noncoplanar_cos2(r['merge_polys'], r['in_pos'])
             thr = Fr(job['cos_thresh']) - Fr(1, 10 ** 6)
             coplanar_only = thr > 0 and thr * thr > c2
             regime = ('vertices-merged' if merged_vertices else
@@ -653,8 +811,9 @@ def eval_runs(ctx, rjobs, rres):
 
 
 def strip_x(job):
-    j = dict(job)
+    j = dict(job.get('_orig', job))
     j['transfers'] = []
+    j.pop('_orig', None)
     return j
 
 
@@ -688,7 +847,13 @@ def eval_transfers(ctx, rjobs, rres):
             n_dst = M if t['dir'] == 'compress' else N
             func = t['dir'] + '_' + t['where'] + '_data'
             meta = {'type': 'transfer', 'run': rid, 'tid': t['tid'], 'func': func, 'kind': t['kind'],
-                    'shape': t['shape'], 'knn': t['knn'], 'xmode': t['xmode']}
+                    'shape': t['shape'], 'knn': t['knn'], 'xmode': t['xmode'],
+                    'dtype': t.get('dtype', 'float64')}
+            ctx.count('transfer_dtype:' + meta['dtype'])
+            if t.get('source_unchanged') is False:
+                sym.append((meta, 'source field modified', ''))
+            if t.get('repeat_same') is False:
+                sym.append((meta, 'same transfer twice gives different results', ''))
             # (3,3) data: x / wt with wt (1,3) broadcasts without error, column-wise
             sq = {'n_src': 3} if (t['shape'] == 'N3' and t.get('n_src') == 3) else {}
             meta['sq'] = sq
@@ -755,8 +920,11 @@ def eval_transfers(ctx, rjobs, rres):
 
     def case_of(meta):
         j = jobs_by_id[meta['run']]
+        if '_orig' in j:
+            return {'jobs': {'runs': [strip_x(j)]}}
         j2 = dict(j)
         j2['transfers'] = [t for t in j['transfers'] if t['tid'] == meta.get('tid')]
+        j2['second'] = None
         return {'jobs': {'runs': [j2]}}
 
     n_corr = 0
@@ -794,7 +962,8 @@ def eval_transfers(ctx, rjobs, rres):
                 ctx.violation('correspondence', case_of(meta), 'Model.%s_tr on the real matrix' % meta['kind'],
                               'differs by more than 2^-30', 'correspondence of the transfer formulas',
                               signature=dict({'check': 'transfer-corr', 'kind': meta['kind'],
-                                              'func': meta['func'], 'shape': meta['shape']}, **meta['sq']),
+                                              'func': meta['func'], 'shape': meta['shape'],
+                                              'dtype': meta['dtype']}, **meta['sq']),
                               what='transferred data differ from the model formula')
             else:
                 ctx.violation('impl-violation', case_of(meta),
@@ -802,8 +971,8 @@ def eval_transfers(ctx, rjobs, rres):
                               'false', 'C20_mean_preserves_const' if ty == 'const' else
                               'C20_sum_conserves_total',
                               signature=dict({'check': 'transfer', 'kind': meta['kind'], 'func': meta['func'],
-                                              'shape': meta['shape'], 'symptom': ty + ' not kept'},
-                                             **meta['sq']),
+                                              'shape': meta['shape'], 'symptom': ty + ' not kept',
+                                              'dtype': meta['dtype']}, **meta['sq']),
                               what='transfer does not keep the ' + ty)
     for meta, symptom, msg in sym:
         ctx.case(['transfer', meta], nontrivial=True)
@@ -812,7 +981,7 @@ def eval_transfers(ctx, rjobs, rres):
                       symptom + (': ' + msg if msg else ''),
                       'C20_sum_conserves_total / C20_mean_preserves_const',
                       signature={'check': 'transfer', 'kind': meta['kind'], 'shape': meta['shape'],
-                                 'symptom': symptom, 'func': meta['func']},
+                                 'symptom': symptom, 'func': meta['func'], 'dtype': meta['dtype']},
                       what='transfer of %s data with kind=%s: %s' % (meta['shape'], meta['kind'], symptom))
     ctx.corr['cases'] += n_corr
     ctx.corr['transfer_cases'] = n_corr
@@ -834,7 +1003,7 @@ def evaluate(ctx, jobs, timeout):
         eval_edge(ctx, jobs['edge'], res['edge'])
     if jobs.get('runs'):
         eval_runs(ctx, jobs['runs'], res['runs'])
-        eval_transfers(ctx, jobs['runs'], res['runs'])
+        eval_transfers(ctx, *with_second(jobs['runs'], res['runs']))
     return res
 
 
@@ -874,7 +1043,7 @@ def main(ctx):
     jobs = {'merge': gen_merge_jobs(ctx, 400 if thorough else 120),
             'reindex': gen_reindex_jobs(ctx, 300 if thorough else 80),
             'edge': gen_edge_jobs(ctx, 400 if thorough else 100),
-            'runs': gen_run_jobs(ctx, 60 if thorough else 6)}
+            'runs': gen_run_jobs(ctx, 60 if thorough else 8)}
     # corpus first
     corpus = sorted((lib.VERIF / 'corpus' / PID).glob('*.json')) if (lib.VERIF / 'corpus' / PID).exists() else []
     for cf in corpus:
